@@ -70,4 +70,16 @@ CHECKS["C05"] = {
     "assumptions": COMMON_ASSUMPTIONS,
 }
 
+CHECKS["C06"] = {
+    "package": "seq", "bin": "c06", "flavor": "seq",
+    "shards": {"quick": 4, "thorough": 16},
+    "level": "exploration",
+    "technique": "runtime monitoring: cumulative-envelope trace oracle + clean-room lazy token bucket (rejection justification) + metamorphic replay of per-value projections and of the history without overrides, under a virtual clock",
+    "rule": "cases = hotspot QPS/Reject rule (q in {0,1,2,3,5,10}, burst 0..5, d 1..3 s, 0-2 per-value overrides incl. 0, positional index 0/1/-1 or keyed parameter with a decoy positional list, capacity 4/16/64/default) x arrival history of 10..180 requests over 1-4 values, batch 1..6, gaps from {0,1,10,d/2,d-1,d,d+1,2d+1,5d} or random. Each case is executed 1 + #values (+1 with overrides) times on fresh resources. Non-trivial iff it has >=1 rejection and >=1 admission served by a refill; distinct = distinct (q class, burst class, d, #values, #overrides, keyed?, index, batch>1?, gap==d seen?, gap==d+1 seen?)",
+    "level_text": "Per value, the admitted tokens are checked against q+b+q(t-first)/d at every admission; every rejection must be justified by the value's (lazily refilled) bucket being short, a zero threshold or a batch above capacity; decisions must not change when the other values' traffic or the other values' overrides are removed; exploration.",
+    "level_note": "Admissions are bounded by the statement's cumulative envelope only (a lazily refilled bucket may legitimately exceed a continuously capped one, see DESIGN §5 C06). The number of distinct values stays within the rule's capacity.",
+    "design_ref": "DESIGN.md §5 C06",
+    "assumptions": COMMON_ASSUMPTIONS,
+}
+
 NOT_APPLICABLE = {}
